@@ -20,6 +20,7 @@ func init() {
 	sym.Register("c10.HAfterChdir", HAfterChdir)
 	sym.Register("c10.HCall", HCall)
 	sym.Register("c10.HNames", HNames)
+	sym.Register("c10.HSpelling", HSpelling)
 }
 
 const B = "/w/a"
@@ -152,6 +153,26 @@ func entry(v avfs.VFS, p string) string {
 	return out + "," + hx.Itoa(st.Nlink) + ":" + string(b)
 }
 
+func absAll(v avfs.VFS, ps []string) []string {
+	out := make([]string, len(ps))
+	for i, p := range ps {
+		out[i], _ = v.Abs(p)
+	}
+	return out
+}
+
+func eqStr(a, b []string) bool {
+	if len(a) != len(b) {
+		return false
+	}
+	for i := range a {
+		if a[i] != b[i] {
+			return false
+		}
+	}
+	return true
+}
+
 func hasPrefix(s, p string) bool { return len(s) >= len(p) && s[:len(p)] == p }
 
 // HCall: one operation with a symbolic path (absolute when abs==1, relative
@@ -199,11 +220,16 @@ func HCall(op, abs, n int) {
 	if res.Panicked {
 		return
 	}
-	cs, rs, _ := do(S, name, p, "/f", flag)
+	cs, rs, es := do(S, name, p, "/f", flag)
 	sym.Observe("wrapper", cv)
 	sym.Observe("standalone", cs)
 	sym.Assert(cv == cs, "C10|"+label+"|errno|wrapper-"+hx.CodeName(cv)+"|standalone-"+hx.CodeName(cs))
 	sym.Assert(rv == rs, "C10|"+label+"|result-differs-from-standalone")
+	// paths embedded in errors name, in the virtual namespace, what the standalone
+	// file system's error names (compared as absolute clean paths)
+	if cv == cs && cv != 0 {
+		sym.Assert(eqStr(absAll(S, errPaths(ev)), absAll(S, errPaths(es))), "C10|"+label+"|error-path-names-another-file-than-on-standalone")
+	}
 	// paths embedded in errors are virtual: they never reveal B
 	for _, ep := range errPaths(ev) {
 		sym.Assert(!hasPrefix(ep, B), "C10|"+label+"|error-reveals-base-path")
@@ -291,4 +317,50 @@ func HNames(n int) {
 	}
 	sym.Assert(!hasPrefix(wd, B) && !hasPrefix(ab, B) && !hasPrefix(fn, B), "C10|basepathfs|names|reveals-base-path")
 	sym.Assert(fn == "/f", "C10|basepathfs|names|File.Name")
+}
+
+// HSpelling: the base directory given relative to the base file system's
+// working directory (spell 1) or unclean (2) yields the same wrapper as the
+// absolute clean spelling: after Chdir("/d") through the wrapper, one operation
+// with a symbolic path (absolute when abs==1) has the same outcome, result and
+// effect on twin base file systems, inside and outside B.
+func HSpelling(op, abs, n, spell int) {
+	name := Ops[op]
+	p := sym.String("p", n)
+	for i := 0; i < len(p); i++ {
+		sym.Assume(p[i] != 0)
+	}
+	if abs == 1 {
+		p = "/" + p
+	}
+	b0 := hx.NewBareMemFS()
+	b1 := hx.NewBareMemFS()
+	seedBase(b0)
+	seedBase(b1)
+	given := "a"
+	if spell == 2 {
+		given = "/w/./a/../a/"
+	} else {
+		hx.Must(b1.Chdir("/w"))
+	}
+	V0 := basepathfs.New(b0, B)
+	V1 := basepathfs.New(b1, given)
+	label := "basepathfs|" + name + "|" + []string{"", "base-given-relative", "base-given-unclean"}[spell]
+	sym.Label(label)
+	sym.Reach("spelling")
+	e0 := V0.Chdir("/d")
+	e1 := V1.Chdir("/d")
+	sym.Assert(hx.Code(e0) == hx.Code(e1), "C10|"+label+"|Chdir-outcome-depends-on-spelling-of-base")
+	var c0, c1 int
+	var r0, r1 string
+	res0 := sym.Outcome(func() { c0, r0, _ = do(V0, name, p, "/f", 0) })
+	res1 := sym.Outcome(func() { c1, r1, _ = do(V1, name, p, "/f", 0) })
+	sym.Observe("abs", c0)
+	sym.Observe("other", c1)
+	sym.Assert(res0.Panicked == res1.Panicked && c0 == c1 && r0 == r1, "C10|"+label+"|outcome-depends-on-spelling-of-base")
+	same := true
+	for _, x := range []string{"/", "/o", "/w", "/w/b", "/w/a", "/w/a/f", "/w/a/d", "/w/a/d/g", "/w/a/n", "/w/a/d/n"} {
+		same = same && entry(b0, x) == entry(b1, x)
+	}
+	sym.Assert(same, "C10|"+label+"|effect-on-base-depends-on-spelling-of-base")
 }
